@@ -13,6 +13,10 @@ def obligations(tier):
     for f in firsts:
         obs.append(Ob(f"C10.fields.first{f}", "CH", "harness.h_metadata", "metadata_fields", 900, {"VF_FIRST": f, "VF_NLINES": 2},
                       funcs=(MD + "Metadata.from_chart_lines",), bounds="2 token lines (+ optional garbage line): first field fixed, second symbolic over all 24; symbolic values"))
+    obs.append(Ob("C10.twice", "CH", "harness.h_extra", "metadata_twice", 900, funcs=(MD + "Metadata.from_chart_lines",),
+                  bounds="two sections parsed in a row (real lines, any subsets of 3 optional fields, first parse possibly failing half-way): the second sees only its own lines and the defaults"))
+    obs.append(Ob("C10.player2", "CH", "harness.h_extra", "player2_any", 300, funcs=(MD + "_field_parsing_specs['player2']",),
+                  bounds="9 Player2 values, quoted or not: the member, or a documented error"))
     obs.append(Ob("C10.fields.no_resolution", "CH", "harness.h_metadata", "metadata_fields", 900, {"VF_FIRST": 12, "VF_NLINES": 2},
                   funcs=(MD + "Metadata.from_chart_lines",), bounds="absent Resolution -> MissingRequiredField unless the second line supplies it"))
     for strf in ([8, 12] if tier == "quick" else [6, 7, 8, 9, 12, 13, 23]):
